@@ -1361,7 +1361,21 @@ rbd_op(const char *id, char *dscript, char *sscript)
         return;
     }
     rbs_n = 0;
-    rbs_run(a, ll, dscript, 0);
+    int ddup = dscript[0] == 'D';
+    rbs_run(a, ll, dscript + ddup, 0);
+    if (ddup) {
+        /* the target is replaced by its duplicate: same instances in the same order, but no sorting tree (as after a parse
+         * with LYD_PARSE_ORDERED): lyds_insert2 must build it (lyds_additionally_reuse_rb_tree from the pooled nodes of the
+         * source, lyds_additionally_create_rb_nodes for the instances the pool has no node left for) */
+        struct lyd_node *dup = NULL, *o, *d;
+        if (lyd_dup_single(a, NULL, LYD_DUP_RECURSIVE, &dup) || !dup) { lyd_free_all(a); lyd_free_all(b); vp_reply(id, "err Dup"); return; }
+        for (o = lyd_child(a), d = lyd_child(dup); o && d; o = o->next, d = d->next) {
+            int j = rbs_serial(o);
+            if (j >= 0) rbs_tab[j] = d;
+        }
+        lyd_free_all(a);
+        a = dup;
+    }
     rbs_run(b, ll, sscript, 0);
     fprintf(stdout, "%s ok", id);
     r = lyd_merge_siblings(&a, b, LYD_MERGE_DESTRUCT);
